@@ -412,10 +412,81 @@ func c01R11(ic *IC, r *Report) {
 		})
 		r.Check(testsSource, "R01.11", fmt.Sprintf("cfg/loop-variable-idiom#%d/source-is-the-variable", n), ic.pos(inner.Pos()), "the shortcut for `i := i` tests the source operand",
 			"the shortcut that turns a redeclaration of the loop variable into a no-op ("+types.ExprString(inner.Cond)+") does not test the source operand: `i := i * 2` in the body of `for i := ...` is dropped (and its operand's closure generation dereferences a nil type), where compiled Go declares a new i")
+		// Since the body's copy of a loop variable is copied back before the post statement
+		// (R01.3), even `i := i` is not a no-op: the new i is a distinct variable, and a later
+		// write to it must not reach the loop variable. Found D67.
+		r.Fail("R01.11", fmt.Sprintf("cfg/loop-variable-idiom#%d/redeclaration-creates-a-variable", n), ic.pos(as.Pos()),
+			"cfg turns the redeclaration of a loop variable in the loop body (`i := i`) into a no-op ("+ic.pos(as.Pos())+"): the inner i is then the body's copy of the loop variable itself, which is copied back before the post statement, so for i := 0; i < 3; i++ { i := i; i += 10 } ends after one iteration (compiled Go: three)")
 		return true
 	})
 	if n == 0 {
-		r.Errorf("R01.11: the loop-variable shortcut (n.gen = nop under a forStmt7/rangeStmt test) was not found in cfg")
+		r.Pass("R01.11", "cfg/loop-variable-redeclaration-is-never-a-no-op", ic.pos(fi.Decl.Pos()), "no define statement is dropped because it redeclares a loop variable")
+	}
+	// every variable of a range clause (key and value) is recognised as a loop variable by the
+	// define case: the node standing for the redeclared loop variable is assigned only inside a
+	// loop over the statement's variables (found D68: `for _, v := range xs { v := v }` read zero)
+	nFi := 0
+	ast.Inspect(fi.Decl.Body, func(nd ast.Node) bool {
+		ifs, ok := nd.(*ast.IfStmt)
+		if !ok {
+			return true
+		}
+		mentionsRange, callsForInit := false, false
+		ast.Inspect(ifs.Cond, func(m ast.Node) bool {
+			if e, ok := m.(ast.Expr); ok && isConstNamed(e, "rangeStmt") {
+				mentionsRange = true
+			}
+			if c, ok := m.(*ast.CallExpr); ok {
+				if f, ok := calleeOf(info, c).(*types.Func); ok && f.Name() == "hasForInit" {
+					callsForInit = true
+				}
+			}
+			return true
+		})
+		if !mentionsRange || !callsForInit {
+			return true
+		}
+		// assignments of a *node local from another node expression, in this if statement
+		var decl types.Object
+		ast.Inspect(ifs.Body, func(m ast.Node) bool {
+			if ds, ok := m.(*ast.DeclStmt); ok {
+				if gd, ok := ds.Decl.(*ast.GenDecl); ok {
+					for _, sp := range gd.Specs {
+						if vs, ok := sp.(*ast.ValueSpec); ok && len(vs.Names) == 1 && len(vs.Values) == 0 && isNamedPtr(info.TypeOf(vs.Names[0]), "node") && decl == nil {
+							decl = info.ObjectOf(vs.Names[0])
+						}
+					}
+				}
+			}
+			return true
+		})
+		if decl == nil {
+			return true
+		}
+		ast.Inspect(ifs.Body, func(m ast.Node) bool {
+			as, ok := m.(*ast.AssignStmt)
+			if !ok || len(as.Lhs) != 1 {
+				return true
+			}
+			if id := identOf(as.Lhs[0]); id == nil || info.ObjectOf(id) != decl {
+				return true
+			}
+			nFi++
+			inLoop := false
+			for _, p := range enclosingPath(ifs.Body, as) {
+				switch p.(type) {
+				case *ast.RangeStmt, *ast.ForStmt:
+					inLoop = true
+				}
+			}
+			r.Check(inLoop, "R01.11", fmt.Sprintf("cfg/redeclared-loop-variable#%d/every-variable-of-the-clause", nFi), ic.pos(as.Pos()), "the redeclared loop variable is searched among all the variables of the clause",
+				"cfg recognises the redeclaration of a loop variable by comparing the new name with "+types.ExprString(as.Rhs[0])+" only, outside a loop over the variables of the clause: for a range clause the value variable is missed, so for _, v := range xs { v := v } assigns the fresh v from itself and reads the zero value")
+			return true
+		})
+		return true
+	})
+	if nFi == 0 {
+		r.Errorf("R01.11: the search for the redeclared loop variable (a *node local assigned in the for/range branch of the define case) was not found")
 	}
 }
 
@@ -1112,6 +1183,46 @@ func c01R19(ic *IC, r *Report) {
 		}
 		for k, fl := range br {
 			n++
+			// ... on every path: a store made on the true branch only leaves the previous value in
+			// the slot when the condition is false (found D71: *p || c after a false dereference)
+			if storesOwn(fl) {
+				fg := buildFlow(fl.Body, info)
+				missing := fg.entryExitsWithout(func(nd ast.Node) bool {
+					hit := false
+					ast.Inspect(nd, func(m ast.Node) bool {
+						if _, isLit := m.(*ast.FuncLit); isLit {
+							return false
+						}
+						switch x := m.(type) {
+						case *ast.AssignStmt:
+							for _, l := range x.Lhs {
+								if ix, ok := unparen(l).(*ast.IndexExpr); ok {
+									if iid := identOf(ix.Index); iid != nil && ownIdx[info.ObjectOf(iid)] {
+										hit = true
+									}
+								}
+							}
+						case *ast.CallExpr:
+							if se, ok := unparen(x.Fun).(*ast.SelectorExpr); ok && strings.HasPrefix(se.Sel.Name, "Set") {
+								if inner, ok := unparen(se.X).(*ast.CallExpr); ok {
+									if id := identOf(inner.Fun); id != nil && ownDest[info.ObjectOf(id)] {
+										hit = true
+									}
+								}
+								if ix, ok := unparen(se.X).(*ast.IndexExpr); ok {
+									if iid := identOf(ix.Index); iid != nil && ownIdx[info.ObjectOf(iid)] {
+										hit = true
+									}
+								}
+							}
+						}
+						return !hit
+					})
+					return hit
+				})
+				r.Check(!missing, "R01.19", fmt.Sprintf("%s/branching-closure#%d/stores-its-value-on-every-path", name, k+1), ic.pos(fl.Pos()), "the value is stored whichever successor is chosen",
+					"the branching variant of generator "+name+" stores its value on some paths only (a return is reachable from the entry of the closure without a store into the node's slot): when the condition takes the other branch, && and || read the value of a previous evaluation back from the slot (*p || c after p was re-pointed to a false value yields true)")
+			}
 			r.Check(storesOwn(fl), "R01.19", fmt.Sprintf("%s/branching-closure#%d/stores-its-value", name, k+1), ic.pos(fl.Pos()), "the branching variant stores the value before choosing the successor",
 				"generator "+name+" stores its value into the node's frame slot in every non-branching variant, but this variant, installed when the value is a branch condition, only tests it: a condition nested in && or || is read back from the slot by its consumer, so a[i] && c (or m[k] || c, p.ok && c ...) evaluates to the slot's previous content")
 		}
@@ -1574,5 +1685,295 @@ func c01R22(ic *IC, r *Report) {
 	})
 	if nCont == 0 {
 		r.Errorf("R01.22: the continue case of cfg does not read scope.loopRestart")
+	}
+}
+
+func init() {
+	ruleText["R01.23"] = "in the switch cases of cfg, the per-clause wiring loops over the clause's case expressions (all but the last child): every expression of a case list is evaluated (tagged switch) or tested in sequence (switch without tag)"
+	ruleText["R01.24"] = "a switch without clause still evaluates its init statement and tag: the early exit taken when the block has no clause sets the node's start"
+	ruleText["R01.25"] = "in the range section of the block pre-order, every case of the operand-type switch that keeps the array range generator allocates the hidden slot the generator reads below the key (sibling agreement)"
+	ruleText["R01.26"] = "in the assignment case of cfg, a shortcut that makes the source write into the destination's slot (src.findex = dest.findex with n.gen = nop) excludes definitions (n.kind != defineStmt), the receive operator excepted: a definition creates a new variable at each execution, which an in-place literal or call result does not"
+}
+
+// c01R23..R01.26: wiring clauses found through the round-5 reports (D69, D70, D72, D73).
+func c01R23to26(ic *IC, r *Report) {
+	info := ic.Info
+	fi := ic.fn(r, "Interpreter.cfg")
+	if fi == nil {
+		return
+	}
+	clauseNamed := func(names ...string) []*ast.CaseClause {
+		var out []*ast.CaseClause
+		ast.Inspect(fi.Decl.Body, func(m ast.Node) bool {
+			cc, ok := m.(*ast.CaseClause)
+			if !ok {
+				return true
+			}
+			for _, l := range cc.List {
+				if id := identOf(l); id != nil {
+					if c, ok := info.Uses[id].(*types.Const); ok {
+						for _, n := range names {
+							if c.Name() == n {
+								out = append(out, cc)
+								return true
+							}
+						}
+					}
+				}
+			}
+			return true
+		})
+		return out
+	}
+	childFld := ic.field("node", "child")
+	startFld := ic.field("node", "start")
+	tnextFld := ic.field("node", "tnext")
+	// R01.23 / R01.24: the post-order switch cases (those popping the scope and reading lastChild)
+	nSw := 0
+	for _, kind := range []string{"switchStmt", "switchIfStmt"} {
+		for _, cc := range clauseNamed(kind) {
+			if len(callsIn(info, cc, true, "interp.setFNext")) == 0 {
+				continue // the pre-order case
+			}
+			nSw++
+			// the loop over the clauses, and inside it a loop over the children of a clause
+			inner := false
+			ast.Inspect(cc, func(m ast.Node) bool {
+				outer, ok := m.(*ast.ForStmt)
+				if !ok {
+					return true
+				}
+				ast.Inspect(outer.Body, func(k ast.Node) bool {
+					rs, ok := k.(*ast.RangeStmt)
+					if !ok {
+						return true
+					}
+					overChildren := false
+					ast.Inspect(rs.X, func(q ast.Node) bool {
+						if e, ok := q.(ast.Expr); ok && selField(info, e) == childFld {
+							overChildren = true
+						}
+						return true
+					})
+					if id := identOf(rs.X); id != nil && !overChildren {
+						// a local slice of the children: conds := c.child[:len(c.child)-1]
+						obj := info.ObjectOf(id)
+						ast.Inspect(outer.Body, func(q ast.Node) bool {
+							if as, ok := q.(*ast.AssignStmt); ok && len(as.Lhs) == len(as.Rhs) {
+								for i, l := range as.Lhs {
+									if lid := identOf(l); lid != nil && info.ObjectOf(lid) == obj {
+										ast.Inspect(as.Rhs[i], func(z ast.Node) bool {
+											if e, ok := z.(ast.Expr); ok && selField(info, e) == childFld {
+												overChildren = true
+											}
+											return true
+										})
+									}
+								}
+							}
+							return true
+						})
+					}
+					wires := false
+					ast.Inspect(rs.Body, func(q ast.Node) bool {
+						if as, ok := q.(*ast.AssignStmt); ok {
+							for _, l := range as.Lhs {
+								if selField(info, l) == tnextFld {
+									wires = true
+								}
+							}
+						}
+						return true
+					})
+					if overChildren && wires {
+						inner = true
+					}
+					return true
+				})
+				return true
+			})
+			r.Check(inner, "R01.23", "cfg/case:"+kind+"/every-case-expression-wired", ic.pos(cc.Pos()), "the clause wiring loops over the clause's expressions",
+				"the "+kind+" case of cfg wires a fixed number of the expressions of a case clause (no loop over the clause's children assigning tnext): in case e1, e2: only e1 is evaluated, the others are compared through the stale content of their slots (switch x { case a + 1, b + 1: } misses b + 1; switch { case x > 1, y > 1: } ignores y > 1)")
+			// R01.24
+			okEmpty := true
+			found := false
+			ast.Inspect(cc, func(m ast.Node) bool {
+				ifs, ok := m.(*ast.IfStmt)
+				if !ok {
+					return true
+				}
+				be, ok := unparen(ifs.Cond).(*ast.BinaryExpr)
+				if !ok || be.Op != token.EQL {
+					return true
+				}
+				if tv, ok := info.Types[be.Y]; !ok || tv.Value == nil || tv.Value.ExactString() != "0" {
+					return true
+				}
+				leaves := false
+				if len(ifs.Body.List) > 0 {
+					if br, ok := ifs.Body.List[len(ifs.Body.List)-1].(*ast.BranchStmt); ok && br.Tok == token.BREAK {
+						leaves = true
+					}
+				}
+				if !leaves {
+					return true
+				}
+				found = true
+				setsStart := false
+				for _, s := range ifs.Body.List {
+					if as, ok := s.(*ast.AssignStmt); ok {
+						for _, l := range as.Lhs {
+							if selField(info, l) == startFld {
+								setsStart = true
+							}
+						}
+					}
+				}
+				if !setsStart {
+					okEmpty = false
+				}
+				return true
+			})
+			if found {
+				r.Check(okEmpty, "R01.24", "cfg/case:"+kind+"/empty-switch-evaluates-its-header", ic.pos(cc.Pos()), "a switch without clause still runs its init statement and tag",
+					"the "+kind+" case of cfg leaves at once when the switch has no clause, without setting the node's start: the init statement and the tag expression are never executed (switch f() {} does not call f)")
+			}
+		}
+	}
+	if nSw < 2 {
+		r.Errorf("R01.23: %d post-order switch cases found in cfg (switchStmt and switchIfStmt expected)", nSw)
+	}
+	// R01.25: hidden slot of the array range
+	nR := 0
+	ast.Inspect(fi.Decl.Body, func(m ast.Node) bool {
+		sw, ok := m.(*ast.SwitchStmt)
+		if !ok || sw.Tag == nil {
+			return true
+		}
+		// a switch over a type category whose cases assign a local named like the key type and
+		// some of which call scope.add with a dummy int ("array shallow copy")
+		type ci struct {
+			cc       *ast.CaseClause
+			adds     bool
+			setsGen  bool
+			assignsK bool
+		}
+		var cis []ci
+		var ktyp types.Object
+		for _, st := range sw.Body.List {
+			cc := st.(*ast.CaseClause)
+			c := ci{cc: cc}
+			for _, s := range cc.Body {
+				// only the statements of the clause itself, not of nested switches
+				switch x := s.(type) {
+				case *ast.ExprStmt:
+					if call, ok := x.X.(*ast.CallExpr); ok {
+						if f, ok := calleeOf(info, call).(*types.Func); ok && f.Name() == "add" && f.Pkg() == ic.Pk.Types {
+							c.adds = true
+						}
+					}
+				case *ast.AssignStmt:
+					for i, l := range x.Lhs {
+						if v := selField(info, l); v != nil && v.Name() == "gen" {
+							c.setsGen = true
+						}
+						if id := identOf(l); id != nil && i < len(x.Rhs) {
+							if t := info.TypeOf(id); t != nil && isNamedPtr(t, "itype") && strings.HasPrefix(id.Name, "k") {
+								c.assignsK = true
+								ktyp = info.ObjectOf(id)
+							}
+						}
+					}
+				}
+			}
+			cis = append(cis, c)
+		}
+		nAdd, nK := 0, 0
+		for _, c := range cis {
+			if c.adds {
+				nAdd++
+			}
+			if c.assignsK {
+				nK++
+			}
+		}
+		if ktyp == nil || nAdd < 2 || nK < 3 {
+			return true
+		}
+		// this is the operand-type switch of the range section
+		for _, c := range cis {
+			if !c.assignsK || c.setsGen {
+				continue // another generator (map range) manages its own slots
+			}
+			nR++
+			label := "default"
+			if len(c.cc.List) > 0 {
+				label = types.ExprString(c.cc.List[0])
+			}
+			r.Check(c.adds, "R01.25", "cfg/range/case:"+label+"/hidden-slot-allocated", ic.pos(c.cc.Pos()), "the hidden slot of the array range is allocated",
+				"the case "+label+" of the range section of cfg keeps the array range generator but allocates no hidden slot before the key variable: the generator stores the ranged value in the slot below the key, which belongs to the variable declared just before the loop (arr := [2]int{1, 2}; p := &arr; x := 42; for i, v := range p {} leaves [1 2] in x)")
+		}
+		return true
+	})
+	if nR < 2 {
+		r.Errorf("R01.25: the operand-type switch of the range section was not recognised (%d array-range cases)", nR)
+	}
+	// R01.26: shortcuts of the assignment case
+	nS := 0
+	findexFld := ic.field("node", "findex")
+	genFld := ic.field("node", "gen")
+	defC, _ := ic.Pk.Types.Scope().Lookup("defineStmt").(*types.Const)
+	ast.Inspect(fi.Decl.Body, func(m ast.Node) bool {
+		cc, ok := m.(*ast.CaseClause)
+		if !ok || len(cc.List) != 1 {
+			return true
+		}
+		slotTaken, genNop := false, false
+		for _, s := range cc.Body {
+			ast.Inspect(s, func(k ast.Node) bool {
+				as, ok := k.(*ast.AssignStmt)
+				if !ok || len(as.Lhs) != 1 || len(as.Rhs) != 1 {
+					return true
+				}
+				if selField(info, as.Lhs[0]) == findexFld && selField(info, as.Rhs[0]) == findexFld {
+					if l := identOf(as.Lhs[0].(*ast.SelectorExpr).X); l != nil && l.Name == "src" {
+						slotTaken = true
+					}
+				}
+				if selField(info, as.Lhs[0]) == genFld {
+					if id := identOf(as.Rhs[0]); id != nil && id.Name == "nop" {
+						if l := identOf(as.Lhs[0].(*ast.SelectorExpr).X); l != nil && l.Name == "n" {
+							genNop = true
+						}
+					}
+				}
+				return true
+			})
+		}
+		if !slotTaken || !genNop {
+			return true
+		}
+		nS++
+		cond := cc.List[0]
+		excludesDefine, isRecv := false, false
+		ast.Inspect(cond, func(k ast.Node) bool {
+			if be, ok := k.(*ast.BinaryExpr); ok && be.Op == token.NEQ {
+				if id := identOf(be.Y); id != nil && defC != nil && info.ObjectOf(id) == defC {
+					excludesDefine = true
+				}
+			}
+			if id, ok := k.(*ast.Ident); ok {
+				if c, ok := info.Uses[id].(*types.Const); ok && c.Name() == "aRecv" {
+					isRecv = true
+				}
+			}
+			return true
+		})
+		r.Check(excludesDefine || isRecv, "R01.26", "cfg/assign-shortcut:"+types.ExprString(cond)+"/not-for-definitions", ic.pos(cc.Pos()), "the source writes into the destination only for plain assignments",
+			"the shortcut "+types.ExprString(cond)+" of the assignment case of cfg lets the source build its value in the destination's slot also for a definition: x := []int{i} (or an array or map literal) in a loop body then fills one variable for all iterations, and closures or pointers taken in different iterations share it (2 2 2 instead of 0 1 2)")
+		return true
+	})
+	if nS < 2 {
+		r.Errorf("R01.26: only %d direct-store shortcuts found in the assignment case of cfg", nS)
 	}
 }
